@@ -105,15 +105,64 @@ use vstd::std_specs::hash::*;
 #[verifier::external_body] #[verifier::accept_recursive_types(T)] pub struct Route<T> { h: std::marker::PhantomData<T> }
 #[verifier::external_body] pub struct RouterConfig { x: u8 }
 // http::Request (src/http/request.rs): only what the layers read
-pub struct Request { pub remote_addr: Option<IpAddr>, pub created_at: Option<DateTime<Utc>>, pub rest: u8 }
-pub uninterp spec fn req_host(r: Request) -> Option<Seq<char>>;
-pub uninterp spec fn req_scheme(r: Request) -> Option<Seq<char>>;
-pub uninterp spec fn req_method(r: Request) -> Seq<char>;
+// http::Request and the accessors the layers use — extracted (src/http/request.rs, src/http/query.rs, src/http/header.rs)
+//@@ item src/http/header.rs :: struct Header
+//@@ item src/http/query.rs :: struct PathAndQueryWithSkipped
+//@@ item src/http/request.rs :: struct Request
+pub open spec fn ostring_view(o: Option<String>) -> Option<Seq<char>> { match o { Some(s) => Some(s@), None => None } }
 pub open spec fn ostr_ref(o: Option<&str>) -> Option<Seq<char>> { match o { Some(h) => Some(h@), None => None } }
+pub open spec fn req_host(r: Request) -> Option<Seq<char>> { ostring_view(r.host) }
+pub open spec fn req_scheme(r: Request) -> Option<Seq<char>> { ostring_view(r.scheme) }
+// statement of the request model: a request without method is a GET
+pub open spec fn req_method(r: Request) -> Seq<char> { match r.method { Some(m) => m@, None => "GET"@ } }
+pub open spec fn req_path(r: Request) -> Seq<char> { match r.path_and_query_skipped.path_and_query_matching { Some(p) => p@, None => r.path_and_query_skipped.path_and_query@ } }
+pub uninterp spec fn spec_lower(s: Seq<char>) -> Seq<char>;
+pub assume_specification [str::to_lowercase] (s: &str) -> (r: std::string::String) ensures r@ == spec_lower(s@);
+// values of the request headers whose lower-cased name equals the lower-cased name asked for, in order
+pub open spec fn hdr_values(hs: Seq<Header>, name: Seq<char>) -> Seq<Seq<char>>
+    decreases hs.len()
+{
+    if hs.len() == 0 { Seq::empty() } else {
+        let p = hdr_values(hs.drop_last(), name);
+        if spec_lower(hs.last().name@) == spec_lower(name) { p.push(hs.last().value@) } else { p }
+    }
+}
+pub open spec fn strs(v: Seq<&str>) -> Seq<Seq<char>> { v.map_values(|s: &str| s@) }
 impl Request {
-    #[verifier::external_body] pub fn host(&self) -> (r: Option<&str>) ensures ostr_ref(r) == req_host(*self) { unimplemented!() }
-    #[verifier::external_body] pub fn scheme(&self) -> (r: Option<&str>) ensures ostr_ref(r) == req_scheme(*self) { unimplemented!() }
-    #[verifier::external_body] pub fn method(&self) -> (r: &str) ensures r@ == req_method(*self) { unimplemented!() }
+    //@@ fn src/http/request.rs :: impl Request / fn method -> r
+    //@| ensures r@ == req_method(*self),
+    //@@ fn src/http/request.rs :: impl Request / fn host -> r
+    //@| ensures ostr_ref(r) == req_host(*self),
+    //@@ fn src/http/request.rs :: impl Request / fn scheme -> r
+    //@| ensures ostr_ref(r) == req_scheme(*self),
+    //@@ fn src/http/request.rs :: impl Request / fn path_and_query -> r
+    //@| ensures r@ == req_path(*self),
+    //@@ fn src/http/request.rs :: impl Request / fn header_exists -> r
+    //@| ensures r == (hdr_values(self.headers@, name@).len() > 0),
+    //@| forlabel 0: it
+    //@| loop 0: invariant iter_ref_ok(it.history@, it.index@, it.snapshot@.remaining(), self.headers@), lowercase_name@ == spec_lower(name@),
+    //@|         hdr_values(self.headers@.take(it.index@), name@).len() == 0,
+    //@| loophead 0: proof { let k = it.index@; assert(*header == self.headers@[k]); assert(self.headers@.take(k + 1).drop_last() =~= self.headers@.take(k)); assert(self.headers@.take(k + 1).last() == self.headers@[k]); }
+    //@| before `return true;`: proof { lemma_hdr_values_mono(self.headers@, name@, it.index@ + 1); }
+    //@| loopend 0: proof { assert(self.headers@.take(self.headers@.len() as int) =~= self.headers@); }
+    //@@ fn src/http/request.rs :: impl Request / fn header_values -> r
+    //@| ensures strs(r@) == hdr_values(self.headers@, name@),
+    //@| forlabel 0: it
+    //@| loop 0: invariant iter_ref_ok(it.history@, it.index@, it.snapshot@.remaining(), self.headers@), lowercase_name@ == spec_lower(name@),
+    //@|         strs(values@) == hdr_values(self.headers@.take(it.index@), name@),
+    //@| loophead 0: let ghost v0 = values@; proof { let k = it.index@; assert(*header == self.headers@[k]); assert(self.headers@.take(k + 1).drop_last() =~= self.headers@.take(k)); assert(self.headers@.take(k + 1).last() == self.headers@[k]); }
+    //@| looptail 0: proof { if values@.len() > v0.len() { assert(strs(values@) =~= strs(v0).push(header.value@)); } }
+    //@| loopend 0: proof { assert(self.headers@.take(self.headers@.len() as int) =~= self.headers@); }
+}
+pub proof fn lemma_hdr_values_mono(hs: Seq<Header>, name: Seq<char>, k: int)
+    requires 0 <= k <= hs.len(),
+    ensures hdr_values(hs.take(k), name).len() <= hdr_values(hs, name).len(),
+    decreases hs.len() - k,
+{
+    if k < hs.len() {
+        lemma_hdr_values_mono(hs, name, k + 1);
+        assert(hs.take(k + 1).drop_last() =~= hs.take(k));
+    } else { assert(hs.take(k) =~= hs); }
 }
 // abstract lower layers: each answers a request with a multiset of routes (its own match_request is verified against ITS lower layer)
 macro_rules! sub_layer_shim {
@@ -180,7 +229,7 @@ pub fn ext_routes<T>(routes: &mut Vec<RouteRef<T>>, other: Vec<RouteRef<T>>)
 {
     broadcast use axiom_iter_seq_vec;
     let ghost a = routes@; let ghost b = other@;
-    /* verbatim: routes.extend(matcher.match_request(request)); | routes.extend(self.any_host.match_request(request)); | routes.extend(routes_stored.clone()); | rules.extend(matcher.match_request(request)); | routes.extend(Trace::get_routes_from_traces(&trace.children)); */
+    /* verbatim: routes.extend(matcher.match_request(request)); | routes.extend(self.any_host.match_request(request)); | routes.extend(routes_stored.clone()); | rules.extend(matcher.match_request(request)); | routes.extend(static_storage.values().cloned().collect::<Vec<Arc<Route<T>>>>()); | routes.extend(Trace::get_routes_from_traces(&trace.children)); */
     routes.extend(other);
     proof { lemma_ms_add(a, b); }
 }
@@ -401,6 +450,34 @@ impl<T> MethodMatcher<T> {
     //@| outline `routes.extend(matcher.match_request(request));`#1 => `ext_routes(&mut routes, matcher.match_request(request));`
 }
 
+// ================================================================ path-and-query layer (C01)
+// regex tree keyed by path patterns (unit `tree` proves find == linear scan of the stored patterns): abstract here
+#[verifier::external_body] #[verifier::accept_recursive_types(V)] pub struct RegexTreeMap<V> { h: std::marker::PhantomData<V> }
+impl<T> RegexTreeMap<RouteRef<T>> {
+    pub uninterp spec fn matching(&self, haystack: Seq<char>) -> Multiset<RouteRef<T>>;    // == tree unit's scan_match
+}
+pub uninterp spec fn route_vals<T>(m: Map<String, RouteRef<T>>) -> Multiset<RouteRef<T>>;    // multiset of the values of an id -> route map
+// R8 outlined expressions (iterator adapter chains): assumed std behaviour — clones of the found routes / of the map's values
+#[verifier::external_body]
+pub fn outl_find_cloned<T>(tree: &RegexTreeMap<RouteRef<T>>, path: &str) -> (r: Vec<RouteRef<T>>) ensures ms_of(r@) == tree.matching(path@)
+{ /* verbatim: self .regex_tree_rule .find(path.as_str()) .iter() .map(|route| (*route).clone()) .collect() */ unimplemented!() }
+#[verifier::external_body]
+pub fn outl_values_cloned<T>(m: &HashMap<String, RouteRef<T>>) -> (r: Vec<RouteRef<T>>) ensures ms_of(r@) == route_vals(m@)
+{ /* verbatim: static_storage.values().cloned().collect::<Vec<Arc<Route<T>>>>() */ unimplemented!() }
+//@@ item src/router/request_matcher/path_and_query.rs :: struct PathAndQueryMatcher
+pub open spec fn static_bucket<T>(m: Map<String, HashMap<String, RouteRef<T>>>, s: Seq<char>) -> Multiset<RouteRef<T>> {
+    if exists|key: String| key@ == s && m.contains_key(key) { let key = choose|key: String| key@ == s && m.contains_key(key); route_vals(m[key]@) } else { Multiset::empty() }
+}
+impl<T> PathAndQueryMatcher<T> {
+    // statement: rules whose path pattern matches the normalised path-and-query, plus the rules whose literal equals it
+    //@@ fn src/router/request_matcher/path_and_query.rs :: impl <T>PathAndQueryMatcher<T> / fn match_request -> r
+    //@| ensures ms_of(r@) == self.regex_tree_rule.matching(req_path(*request)).add(static_bucket(self.static_rules@, req_path(*request))),
+    //@| entry broadcast use vstd::std_specs::hash::group_hash_axioms; broadcast use axiom_string_key_model; broadcast use axiom_borrow_str_contains; broadcast use axiom_borrow_str_maps;
+    //@|     proof { axiom_string_ext(); let a = self.regex_tree_rule.matching(req_path(*request)); assert(a.add(Multiset::empty()) =~= a); }
+    //@| outline `self .regex_tree_rule .find(path.as_str()) .iter() .map(|route| (*route).clone()) .collect()` => `outl_find_cloned(&self.regex_tree_rule, path.as_str())`
+    //@| outline `routes.extend(static_storage.values().cloned().collect::<Vec<Arc<Route<T>>>>());` => `ext_routes(&mut routes, outl_values_cloned(static_storage));`
+}
+
 // ================================================================ header layer (C01)
 use std::collections::BTreeSet;
 //@@ item src/router/request_matcher/header.rs :: enum ValueCondition
@@ -442,16 +519,130 @@ impl<T> SubDt<T> {
 //@@ rename DateTimeMatcher SubDt
 //@@ item src/router/request_matcher/header.rs :: struct HeaderMatcher
 //@@ unrename DateTimeMatcher
-// one header condition holds for the request (ValueCondition::match_value: below)
-pub uninterp spec fn spec_match_value(c: ValueCondition, request: Request, name: Seq<char>) -> bool;
+// ---- header conditions (statement): existential kinds hold iff SOME value of the header satisfies them, negative kinds iff NO value violates them
+pub uninterp spec fn str_contains(a: Seq<char>, b: Seq<char>) -> bool;       // substring test (std, uninterpreted)
+pub open spec fn is_suffix(q: Seq<char>, p: Seq<char>) -> bool { q.len() <= p.len() && q == p.skip(p.len() - q.len()) }
+pub open spec fn is_prefix(q: Seq<char>, p: Seq<char>) -> bool { q.len() <= p.len() && q == p.take(q.len() as int) }
+pub uninterp spec fn hre_compiles(pat: Seq<char>) -> bool;                    // regex crate (uninterpreted)
+pub uninterp spec fn hre_matches(pat: Seq<char>, h: Seq<char>) -> bool;
+#[verifier::external_body] pub struct Regex { x: u8 }
+#[verifier::external_body] pub struct RegexError { x: u8 }
+pub uninterp spec fn hre_pat(r: Regex) -> Seq<char>;
+impl Regex {
+    #[verifier::external_body] pub fn new(re: &str) -> (r: std::result::Result<Regex, RegexError>) ensures r.is_ok() == hre_compiles(re@), r matches Ok(x) ==> hre_pat(x) == re@ { unimplemented!() }
+    #[verifier::external_body] pub fn is_match(&self, h: &str) -> (r: bool) ensures r == hre_matches(hre_pat(*self), h@) { unimplemented!() }
+}
+// R8 outlined expressions (generic Pattern API of str): assumed std behaviour
+#[verifier::external_body] pub fn outl_contains(a: &str, b: &str) -> (r: bool) ensures r == str_contains(a@, b@) { /* verbatim: value.contains(str.as_str()) */ a.contains(b) }
+#[verifier::external_body] pub fn outl_ends_with(a: &str, b: &str) -> (r: bool) ensures r == is_suffix(b@, a@) { /* verbatim: value.ends_with(str.as_str()) */ a.ends_with(b) }
+#[verifier::external_body] pub fn outl_starts_with(a: &str, b: &str) -> (r: bool) ensures r == is_prefix(b@, a@) { /* verbatim: value.starts_with(str.as_str()) */ a.starts_with(b) }
+pub assume_specification<'a> [<&'a str as PartialEq<std::string::String>>::eq] (a: &&'a str, b: &std::string::String) -> (r: bool) ensures r == (a@ == b@);
+pub assume_specification [<str as PartialEq<std::string::String>>::eq] (a: &str, b: &std::string::String) -> (r: bool) ensures r == (a@ == b@);
+pub open spec fn some_value(vs: Seq<Seq<char>>, f: spec_fn(Seq<char>) -> bool) -> bool { exists|i: int| 0 <= i < vs.len() && f(#[trigger] vs[i]) }
+pub open spec fn spec_match_value(c: ValueCondition, request: Request, name: Seq<char>) -> bool {
+    let vs = hdr_values(request.headers@, name);
+    match c {
+        ValueCondition::IsDefined => vs.len() > 0,
+        ValueCondition::IsNotDefined => vs.len() == 0,
+        ValueCondition::IsEquals(s) => some_value(vs, |v: Seq<char>| v == s@),
+        ValueCondition::IsNotEqualTo(s) => !some_value(vs, |v: Seq<char>| v == s@),
+        ValueCondition::Contains(s) => some_value(vs, |v: Seq<char>| str_contains(v, s@)),
+        ValueCondition::DoesNotContain(s) => !some_value(vs, |v: Seq<char>| str_contains(v, s@)),
+        ValueCondition::EndsWith(s) => some_value(vs, |v: Seq<char>| is_suffix(s@, v)),
+        ValueCondition::StartsWith(s) => some_value(vs, |v: Seq<char>| is_prefix(s@, v)),
+        ValueCondition::MatchRegex(re) => hre_compiles(re@) && some_value(vs, |v: Seq<char>| hre_matches(re@, v)),
+    }
+}
 pub open spec fn cond_true(c: HeaderCondition, request: Request) -> bool { spec_match_value(c.condition, request, c.header_name@) }
 // statement: a group contributes iff ALL its conditions hold
 pub open spec fn group_true(cs: Set<HeaderCondition>, request: Request) -> bool { forall|c: HeaderCondition| cs.contains(c) ==> cond_true(c, request) }
+pub open spec fn some_upto(vs: Seq<Seq<char>>, f: spec_fn(Seq<char>) -> bool, n: int) -> bool { exists|i: int| 0 <= i < n && f(#[trigger] vs[i]) }
 impl ValueCondition {
     //@@ fn src/router/request_matcher/header.rs :: impl ValueCondition / fn match_value -> r
-    //@| opt external_body
-    //@| opt stub
     //@| ensures r == spec_match_value(*self, *request, name@),
+    //@| forlabel 0: it
+    //@| loopbefore 0: let ghost vs0 = values@;
+    //@| loop 0: invariant iter_ok(it.history@, it.index@, it.snapshot@.remaining(), vs0), strs(vs0) == hdr_values(request.headers@, name@),
+    //@|         result == some_upto(strs(vs0), |v: Seq<char>| v == str@, it.index@),
+    //@| loophead 0: proof { assert(value == vs0[it.index@ as int]); assert(strs(vs0)[it.index@ as int] == value@); }
+    //@| looptail 0: proof {
+    //@|     let f = |v: Seq<char>| v == str@; let k = it.index@;
+    //@|     if some_upto(strs(vs0), f, k + 1) { let i = choose|i: int| 0 <= i < k + 1 && f(#[trigger] strs(vs0)[i]); if i < k { assert(some_upto(strs(vs0), f, k)); } }
+    //@|     if some_upto(strs(vs0), f, k) { let i = choose|i: int| 0 <= i < k && f(#[trigger] strs(vs0)[i]); assert(f(strs(vs0)[i])); }
+    //@|     if f(strs(vs0)[k]) { assert(some_upto(strs(vs0), f, k + 1)); }
+    //@| }
+    //@| forlabel 1: it
+    //@| loopbefore 1: let ghost vs0 = values@;
+    //@| loop 1: invariant iter_ok(it.history@, it.index@, it.snapshot@.remaining(), vs0), strs(vs0) == hdr_values(request.headers@, name@),
+    //@|         result == !some_upto(strs(vs0), |v: Seq<char>| v == str@, it.index@),
+    //@| loophead 1: proof { assert(value == vs0[it.index@ as int]); assert(strs(vs0)[it.index@ as int] == value@); }
+    //@| looptail 1: proof {
+    //@|     let f = |v: Seq<char>| v == str@; let k = it.index@;
+    //@|     if some_upto(strs(vs0), f, k + 1) { let i = choose|i: int| 0 <= i < k + 1 && f(#[trigger] strs(vs0)[i]); if i < k { assert(some_upto(strs(vs0), f, k)); } }
+    //@|     if some_upto(strs(vs0), f, k) { let i = choose|i: int| 0 <= i < k && f(#[trigger] strs(vs0)[i]); assert(f(strs(vs0)[i])); }
+    //@|     if f(strs(vs0)[k]) { assert(some_upto(strs(vs0), f, k + 1)); }
+    //@| }
+    //@| forlabel 2: it
+    //@| loopbefore 2: let ghost vs0 = values@;
+    //@| loop 2: invariant iter_ok(it.history@, it.index@, it.snapshot@.remaining(), vs0), strs(vs0) == hdr_values(request.headers@, name@),
+    //@|         result == some_upto(strs(vs0), |v: Seq<char>| str_contains(v, str@), it.index@),
+    //@| loophead 2: proof { assert(value == vs0[it.index@ as int]); assert(strs(vs0)[it.index@ as int] == value@); }
+    //@| looptail 2: proof {
+    //@|     let f = |v: Seq<char>| str_contains(v, str@); let k = it.index@;
+    //@|     if some_upto(strs(vs0), f, k + 1) { let i = choose|i: int| 0 <= i < k + 1 && f(#[trigger] strs(vs0)[i]); if i < k { assert(some_upto(strs(vs0), f, k)); } }
+    //@|     if some_upto(strs(vs0), f, k) { let i = choose|i: int| 0 <= i < k && f(#[trigger] strs(vs0)[i]); assert(f(strs(vs0)[i])); }
+    //@|     if f(strs(vs0)[k]) { assert(some_upto(strs(vs0), f, k + 1)); }
+    //@| }
+    //@| forlabel 3: it
+    //@| loopbefore 3: let ghost vs0 = values@;
+    //@| loop 3: invariant iter_ok(it.history@, it.index@, it.snapshot@.remaining(), vs0), strs(vs0) == hdr_values(request.headers@, name@),
+    //@|         result == !some_upto(strs(vs0), |v: Seq<char>| str_contains(v, str@), it.index@),
+    //@| loophead 3: proof { assert(value == vs0[it.index@ as int]); assert(strs(vs0)[it.index@ as int] == value@); }
+    //@| looptail 3: proof {
+    //@|     let f = |v: Seq<char>| str_contains(v, str@); let k = it.index@;
+    //@|     if some_upto(strs(vs0), f, k + 1) { let i = choose|i: int| 0 <= i < k + 1 && f(#[trigger] strs(vs0)[i]); if i < k { assert(some_upto(strs(vs0), f, k)); } }
+    //@|     if some_upto(strs(vs0), f, k) { let i = choose|i: int| 0 <= i < k && f(#[trigger] strs(vs0)[i]); assert(f(strs(vs0)[i])); }
+    //@|     if f(strs(vs0)[k]) { assert(some_upto(strs(vs0), f, k + 1)); }
+    //@| }
+    //@| forlabel 4: it
+    //@| loopbefore 4: let ghost vs0 = values@;
+    //@| loop 4: invariant iter_ok(it.history@, it.index@, it.snapshot@.remaining(), vs0), strs(vs0) == hdr_values(request.headers@, name@),
+    //@|         result == some_upto(strs(vs0), |v: Seq<char>| is_suffix(str@, v), it.index@),
+    //@| loophead 4: proof { assert(value == vs0[it.index@ as int]); assert(strs(vs0)[it.index@ as int] == value@); }
+    //@| looptail 4: proof {
+    //@|     let f = |v: Seq<char>| is_suffix(str@, v); let k = it.index@;
+    //@|     if some_upto(strs(vs0), f, k + 1) { let i = choose|i: int| 0 <= i < k + 1 && f(#[trigger] strs(vs0)[i]); if i < k { assert(some_upto(strs(vs0), f, k)); } }
+    //@|     if some_upto(strs(vs0), f, k) { let i = choose|i: int| 0 <= i < k && f(#[trigger] strs(vs0)[i]); assert(f(strs(vs0)[i])); }
+    //@|     if f(strs(vs0)[k]) { assert(some_upto(strs(vs0), f, k + 1)); }
+    //@| }
+    //@| forlabel 5: it
+    //@| loopbefore 5: let ghost vs0 = values@;
+    //@| loop 5: invariant iter_ok(it.history@, it.index@, it.snapshot@.remaining(), vs0), strs(vs0) == hdr_values(request.headers@, name@),
+    //@|         result == some_upto(strs(vs0), |v: Seq<char>| is_prefix(str@, v), it.index@),
+    //@| loophead 5: proof { assert(value == vs0[it.index@ as int]); assert(strs(vs0)[it.index@ as int] == value@); }
+    //@| looptail 5: proof {
+    //@|     let f = |v: Seq<char>| is_prefix(str@, v); let k = it.index@;
+    //@|     if some_upto(strs(vs0), f, k + 1) { let i = choose|i: int| 0 <= i < k + 1 && f(#[trigger] strs(vs0)[i]); if i < k { assert(some_upto(strs(vs0), f, k)); } }
+    //@|     if some_upto(strs(vs0), f, k) { let i = choose|i: int| 0 <= i < k && f(#[trigger] strs(vs0)[i]); assert(f(strs(vs0)[i])); }
+    //@|     if f(strs(vs0)[k]) { assert(some_upto(strs(vs0), f, k + 1)); }
+    //@| }
+    //@| forlabel 6: it
+    //@| loopbefore 6: let ghost vs0 = values@;
+    //@| loop 6: invariant iter_ok(it.history@, it.index@, it.snapshot@.remaining(), vs0), strs(vs0) == hdr_values(request.headers@, name@),
+    //@|         result == some_upto(strs(vs0), |v: Seq<char>| hre_matches(regex_string@, v), it.index@), hre_pat(regex) == regex_string@,
+    //@| loophead 6: proof { assert(header_value == vs0[it.index@ as int]); assert(strs(vs0)[it.index@ as int] == header_value@); }
+    //@| looptail 6: proof {
+    //@|     let f = |v: Seq<char>| hre_matches(regex_string@, v); let k = it.index@;
+    //@|     if some_upto(strs(vs0), f, k + 1) { let i = choose|i: int| 0 <= i < k + 1 && f(#[trigger] strs(vs0)[i]); if i < k { assert(some_upto(strs(vs0), f, k)); } }
+    //@|     if some_upto(strs(vs0), f, k) { let i = choose|i: int| 0 <= i < k && f(#[trigger] strs(vs0)[i]); assert(f(strs(vs0)[i])); }
+    //@|     if f(strs(vs0)[k]) { assert(some_upto(strs(vs0), f, k + 1)); }
+    //@| }
+    //@| replace `value == str` => `*value == **str` :: `&str == &String` is defined by std as the comparison of the referents (`*a == *b`); Verus has no spec for the heterogeneous reference impl
+    //@| replace `value != str` => `*value != **str` :: same as above
+    //@| outline `value.contains(str.as_str())`#0 => `outl_contains(value, str.as_str())`
+    //@| outline `value.contains(str.as_str())`#1 => `outl_contains(value, str.as_str())`
+    //@| outline `value.ends_with(str.as_str())` => `outl_ends_with(value, str.as_str())`
+    //@| outline `value.starts_with(str.as_str())` => `outl_starts_with(value, str.as_str())`
 }
 pub proof fn lemma_cover_sound<T>(r: Seq<&T>, st: Set<T>)
     requires r.no_duplicates(), st.finite(), r.len() == st.len(), forall|k: T| st.contains(k) ==> r.contains(&k),
